@@ -34,7 +34,7 @@ func (p *propC03) Assumptions() []string {
 	}
 }
 func (p *propC03) ProbeNames() []string {
-	return []string{"unheld type between held ones", "repeated file_id same type", "repeated file_id other type", "repeated file_id without type field", "pointer slot overwritten", "unsupported type rejected", "all accessors checked"}
+	return []string{"unheld type between held ones", "repeated file_id same type", "repeated file_id other type", "repeated file_id without type field", "pointer slot overwritten", "unsupported type rejected", "all accessors checked", "slice longer than 512", "slice longer than 2048"}
 }
 
 func (p *propC03) Prepare(seed uint64, tier string) int {
@@ -85,11 +85,22 @@ func (p *propC03) Gen(idx int) *Scenario {
 	}
 	repeat := r.Chance(1, 4)
 	n := r.Range(1, 60)
+	// long runs: containers that grow past 512 / 1024 / 2048 entries of one message kind
+	var dominant uint16
+	if idx%61 == 7 && len(hosted) > 0 {
+		n = r.Range(520, 4500)
+		dominant = hosted[r.Intn(len(hosted))]
+		for k := 0; k < 8 && !hostsOf(t)[dominant].Slice; k++ {
+			dominant = hosted[r.Intn(len(hosted))]
+		}
+	}
 	seq := 0
 	for i := 0; i < n; i++ {
 		var gl uint16
 		x := r.Intn(20)
 		switch {
+		case dominant != 0 && x < 18:
+			gl = dominant
 		case x == 0:
 			gl = unknownGlobal(r)
 		case repeat && x == 1:
@@ -291,6 +302,16 @@ func (p *propC03) Check(sc *Scenario, st *Stats) []Violation {
 		}
 	}
 	st.ProbeIf(unheldBetween, "unheld type between held ones")
+	perKind := map[uint16]int{}
+	for _, m := range mo.Msgs {
+		perKind[m.Global]++
+	}
+	for g, c := range perKind {
+		if h, ok := hs[g]; ok && h.Slice {
+			st.ProbeIf(c > 512, "slice longer than 512")
+			st.ProbeIf(c > 2048, "slice longer than 2048")
+		}
+	}
 	for _, c := range ptrCount {
 		if c > 1 {
 			st.Probe("pointer slot overwritten")
